@@ -217,7 +217,15 @@ pub fn in_guard_band(c: &Constraint, x: &[f64]) -> bool {
         Constraint::ArcAngle(a, _) => len(&a.center, &a.start) < 1e-3 || len(&a.center, &a.end) < 1e-3,
         Constraint::ArcRadius(a, _) => len(&a.center, &a.start) < 1e-3 || len(&a.center, &a.end) < 1e-3,
         // (an arc whose start and end coincide has no sweep: the angular range test is degenerate)
-        Constraint::PointArcCoincident(a, p) => len(&a.center, &a.start) < 1e-3 || len(&a.center, p) < 1e-3 || len(&a.start, &a.end) < 1e-3 || len(&a.center, &a.end) < 1e-3,
+        Constraint::PointArcCoincident(a, p) => {
+            // (the angular rows are one-sided penalties, zero inside the sweep: they have a kink where the
+            // point's direction from the centre coincides with the start's or the end's)
+            let c = pt(x, &a.center);
+            let (u, s, e) = (pt(x, p).sub(c), pt(x, &a.start).sub(c), pt(x, &a.end).sub(c));
+            let ang = |v: P, w: P| v.cross(w).atan2(v.dot(w)).abs();
+            len(&a.center, &a.start) < 1e-3 || len(&a.center, p) < 1e-3 || len(&a.start, &a.end) < 1e-3 || len(&a.center, &a.end) < 1e-3
+                || ang(u, s) < 1e-3 || ang(u, e) < 1e-3
+        }
         Constraint::PointLineDistance(_, l, _) => len(&l.p0, &l.p1) < 1e-3,
         // (a radius of zero is a degenerate circle: the nearer-tangency choice has a kink there)
         Constraint::CircleTangentToCircle(c0, c1) => {
